@@ -874,6 +874,11 @@ fn run_c13bb(args: &Args) -> Report {
         for _ in 0..r.below(40) {
             text.push_str(alpha[r.below(alpha.len())]);
         }
+        // one document in six starts with a byte-order mark: a character like any other for the protocol
+        // (one UTF-16 unit in column 0 of line 0)
+        if r.chance(1, 6) {
+            text.insert(0, '\u{feff}');
+        }
         let mut client = Doc::new(text.clone());
         let mut log: Vec<Value> = vec![json!({"open": text})];
         version += 1;
@@ -1584,7 +1589,14 @@ fn run_c17(args: &Args) -> Report {
             if !deps.is_empty() {
                 rep.see("layouts", "path-dependency-with-registry-dependencies");
             }
-            pkgs.push(TPkg { key: "pathdep".into(), name: "pathdep".into(), dir: pathdep_dir.clone(), local: true, deps, path_deps: vec![], modules: vec![] });
+            // one path dependency in three has a path dependency of its own, a sibling directory (`../pathdep2` as seen
+            // from the path dependency - which, when that one sits in the root's libs/, is NOT `../pathdep2` as seen from the root)
+            let second_level = cr.chance(1, 3);
+            pkgs.push(TPkg { key: "pathdep".into(), name: "pathdep".into(), dir: pathdep_dir.clone(), local: true, deps, path_deps: if second_level { vec!["pathdep2".into()] } else { vec![] }, modules: vec![] });
+            if second_level {
+                rep.see("layouts", if nested_path { "path-dependency-of-a-path-dependency:inside-the-root" } else { "path-dependency-of-a-path-dependency:beside-the-root" });
+                pkgs.push(TPkg { key: "pathdep2".into(), name: "pathdep2".into(), dir: pathdep_dir.parent().unwrap().join("pathdep2"), local: true, deps: vec![], path_deps: vec![], modules: vec![] });
+            }
             if private_copy {
                 rep.see("layouts", "path-dependency-with-private-copy-of-a-registry-package");
                 pkgs.push(TPkg { key: format!("{}@pathdep", reg_names[0]), name: reg_names[0].clone(), dir: pathdep_dir.join("build/packages").join(&reg_names[0]), local: false, deps: vec![], path_deps: vec![], modules: vec![] });
@@ -1648,7 +1660,8 @@ fn run_c17(args: &Args) -> Report {
                 toml.push_str("latedep = \"~> 1.0\"\n");
             }
             for d in &p.path_deps {
-                toml.push_str(&format!("{d} = {{ path = \"{}{d}\" }}\n", if nested_path { "libs/" } else { "../" }));
+                // relative to the package that declares it
+                toml.push_str(&format!("{d} = {{ path = \"{}{d}\" }}\n", if p.key == "app" && nested_path { "libs/" } else { "../" }));
             }
             if devdep && p.key == "app" {
                 // a package that is ONLY a dev-dependency (the test runner of practically every project): fetched
@@ -2059,7 +2072,8 @@ fn run_wire(args: &Args) -> Report {
         let _ = std::fs::remove_dir_all(&base);
         let proj = base.join("proj");
         std::fs::create_dir_all(proj.join("src")).unwrap();
-        let text = format!("{}{}", big_module(&mut cr), WIRE_TAIL);
+        // one document in five starts with a byte-order mark (then line 0 begins `pub fn bom_first() ..`, so that line 0 has tokens)
+        let text = if cr.chance(1, 5) { format!("{}pub fn bom_first() {{ bom_first() }}\n{}{}", '\u{feff}', big_module(&mut cr), WIRE_TAIL) } else { format!("{}{}", big_module(&mut cr), WIRE_TAIL) };
         std::fs::write(proj.join("gleam.toml"), "name = \"proj\"\n").unwrap();
         std::fs::write(proj.join("src/w.gleam"), &text).unwrap();
         let profile = client_profile(&mut cr);
